@@ -465,6 +465,9 @@ impl Engine for C18Engine {
         n.extend_from_slice(&["vec_workloads", "vec_reallocations", "vec_ops", "arena_workloads", "arena_workload_chunks"]);
         n
     }
+    fn fuzz(&self) -> Option<FuzzSpec> {
+        Some(FuzzSpec { target: "fz_arena", max_len: 8 + 4 * 80, target_prefix: vec![], engine_prefix: vec![0] })
+    }
     fn cases(&self, tier: Tier) -> u32 {
         match tier {
             Tier::Quick => 2500,
